@@ -3,14 +3,14 @@ CONSTANTS
   KeyTab <- MCKeyTab
   CurSeq <- MCCurSeq
   Special <- MCSpecial
-  Ledgers <- LedgersNone
+  Ledgers = {}
   OpenArgs <- Open05
   CloseArgs <- Close05
   ClearArgs = {TRUE, FALSE}
   Filters <- FAll
   Order <- OrderStated
   CompileMode = "stated"
-INIT Init
+INIT InitNone
 NEXT KNext
 INVARIANTS EmitKeys
 CHECK_DEADLOCK FALSE
